@@ -172,7 +172,22 @@ pub fn generate(thorough: bool, seed: u64, out: &mut dyn Write) {
     if let Ok(b) = std::fs::read(sample_path()) {
         writeln!(out, "rawwrite {}", hex(&b)).unwrap();
     }
-    let n = if thorough { 4000 } else { 140 };
+    if thorough {
+        // the u16 vertex-count boundary (the specification's decoder is quadratic in the vertex
+        // count, so the boundary gets two dedicated small-stride cases instead of random ones)
+        for &vc in &[65535usize, 65534] {
+            let decl = vec![GElem { stream: 0, offset: 0, ty: 2, usage: 0, uidx: 0 }];
+            let mut m = single_stream_model(decl.clone(), 12, 3, canonical_streams(&mut rng, &decl, &[12], 3)[0].1.clone());
+            m.lods[0].meshes[0].indices = vec![0, 1, 2];
+            m.lods[0].meshes[0].index_pad = 5;
+            m.lods[0].meshes[0].subs = vec![GSub { off: 0, count: 3, mask: 0, bstart: 0, bcount: 0 }];
+            let streams = canonical_streams(&mut rng, &decl, &[12], vc);
+            let ni = 3 * 700;
+            let indices: Vec<u16> = (0..ni).map(|_| rng.below(vc as u64) as u16).collect();
+            writeln!(out, "edit {} | rv=0:0:{}:{}:{}:0.{}", m.tokens(), vc, dot_streams(&streams), u16be(&indices), ni).unwrap();
+        }
+    }
+    let n = if thorough { 30000 } else { 400 };
     for i in 0..n {
         let o = GenOpts {
             max_meshes: if i % 5 == 0 { 4 } else { 2 },
@@ -189,7 +204,7 @@ pub fn generate(thorough: bool, seed: u64, out: &mut dyn Write) {
                 writeln!(out, "wbytes {} |", base).unwrap();
             }
         } else {
-            let toks = gen_history(&mut rng, &mut m, thorough && i % 400 == 7);
+            let toks = gen_history(&mut rng, &mut m, thorough && i % 100 == 7);
             writeln!(out, "edit {} | {}", base, toks.join(" ")).unwrap();
             if i % 10 == 1 {
                 writeln!(out, "wbytes {} | {}", base, toks.join(" ")).unwrap();
